@@ -95,10 +95,27 @@ def check_repl(ctx):
         ctx.check(len(grow) == 1, inst, "PIN", b.path, "growth is reserved as new_size.saturating_sub(old_size)", b.where(n))
         R.dom(ctx, inst, b, grow, [n], "growth reserved before the replacement is published", a_desc="reserve_memory(growth)")
         R.follow(ctx, inst, b, [n], cm, "replacement is followed by commit", exits=b.return_nodes() + R.call("HashMap::entry")(b), b_desc="commit")
+        def under_guard(x):
+            if x.has_call("HashMap::entry") or any(y.k == "local" and "scc::hash_map::OccupiedEntry" in (b.local_ty(y.extra) or "") for y in x.walk()):
+                return True
+            for (k, l) in A.origins(b, x):
+                if k == "local" and "scc::hash_map::OccupiedEntry" in (b.local_ty(l) or ""):
+                    return True
+                if k == "call" and path_matches(R.callee_name(b.nodes[l].ev), "HashMap::entry"):
+                    return True
+            return False
         for g in grow:
             e = R.arg_expr(b, b.nodes[g], 1)
-            # saturating_sub(new, old): old = calculate_size() of the record under the guard
-            ctx.check(e.has_call("Record::calculate_size"), inst, "PROVENANCE", b.path, "growth is measured against the current record's calculate_size()", b.where(g), {"expr": e.show()})
+            # saturating_sub(new, old): old = calculate_size() of the record *under the bucket guard* (not of the optimistic read)
+            cs = [c for c in e.walk() if c.k == "call" and path_matches(c.extra, "Record::calculate_size")]
+            ctx.check(len(cs) >= 1 and all(c.a and under_guard(c.a[0]) for c in cs[-1:]), inst, "PROVENANCE", b.path,
+                      "growth is measured against the size of the record found under the bucket guard", b.where(g), {"expr": e.show()})
+            sub = [c for c in e.walk() if c.k == "call" and path_matches(c.extra, "saturating_sub")]
+            if sub and len(sub[0].a) == 2:
+                old = sub[0].a[1]
+                ocs = [c for c in old.walk() if c.k == "call" and path_matches(c.extra, "Record::calculate_size")]
+                ctx.check(len(ocs) == 1 and ocs[0].a and under_guard(ocs[0].a[0]), inst, "PROVENANCE", b.path,
+                          "the size subtracted (old_size) is calculate_size() of the generation being replaced", b.where(g), {"old": old.show()})
         # shrink: release_memory(old - new) exactly on old_size > new_size
         def shrink_cmp(e):
             return e.k == "bin" and e.extra == "Lt" and e.a[1].has_call("Record::calculate_size")
@@ -112,6 +129,9 @@ def check_repl(ctx):
         for x in rl:
             e = R.arg_expr(b, b.nodes[x], 1)
             ctx.check(e.k == "bin" and e.extra == "Sub" and e.a[0].has_call("Record::calculate_size"), inst, "PIN", b.path, "released amount is old_size - new_size", b.where(x), {"expr": e.show()})
+            ocs = [c for c in e.a[0].walk() if c.k == "call" and path_matches(c.extra, "Record::calculate_size")] if e.k == "bin" else []
+            ctx.check(len(ocs) == 1 and ocs[0].a and under_guard(ocs[0].a[0]),
+                      inst, "PROVENANCE", b.path, "the released old_size is the replaced generation's size (record under the guard)", b.where(x))
     # update_ttl: same key, same value_len by construction
     body = ctx.fn("Record::new_deferred_with_ttl", inst)
     if body is not None:
